@@ -236,6 +236,14 @@ def check_config(config: dict) -> None:
         raise TOMLConfigError(
             f"Interface_cap {intf_cap} < interface[-2]={intf[-2]}"
         )
+    if intf_cap is not False:
+        # a wire fencing ensemble samples between its interface and the cap
+        for idx, intf_i in enumerate(intf[:-1]):
+            if sh_moves[idx + 1] == "wf" and intf_cap <= intf_i:
+                raise TOMLConfigError(
+                    f"Interface_cap {intf_cap} leaves no room for the 'wf' "
+                    f"ensemble with interface {intf_i}"
+                )
 
     # engine checks
     unique_engines = []
